@@ -222,16 +222,19 @@ Definition clear_obj (st : state) (c : cid) : state :=
   fold_left clear_with_descs (nodes_of_obj st c) st.
 
 (** [clear_attr_referrers ref]: the readers of the reference with their trace
-    descendants; the reference graph loses the reference and its readers only *)
+    descendants; the reference graph loses the reference and its readers only.
+    (The code prunes the reference graph first and clears afterwards; the two
+    parts touch disjoint components of the state, so the order is immaterial.) *)
+Definition clear_no_rg (s : state) (i : item) : state :=
+  if mem_node (node_of i) (s_nodes s) then
+    let removed := descs_with s (node_of i) in
+    fold_left on_clear_trace removed (g_remove_nodes s removed)
+  else s.
 Definition clear_attr_referrers (st : state) (r : rid) : state :=
   let readers := rg_readers st r in
-  let st1 := upd_rgraph st (filter (fun i => negb (mem_item i readers)) (s_rnodes st))
-                        (filter (fun e => negb (Nat.eqb (fst e) r) && negb (mem_item (snd e) readers)) (s_redges st)) in
-  fold_left (fun s i =>
-               if mem_node (node_of i) (s_nodes s) then
-                 let removed := descs_with s (node_of i) in
-                 fold_left on_clear_trace removed (g_remove_nodes s removed)
-               else s) readers st1.
+  let st1 := fold_left clear_no_rg readers st in
+  upd_rgraph st1 (filter (fun i => negb (mem_item i readers)) (s_rnodes st1))
+             (filter (fun e => negb (Nat.eqb (fst e) r) && negb (mem_item (snd e) readers)) (s_redges st1)).
 
 Definition has_data (st : state) (i : item) : bool :=
   match lookup_data (s_data st) i with Some _ => true | None => false end.
@@ -279,9 +282,17 @@ Fixpoint drop_refs (depth : nat) (rs : list (nat * rid)) : list (nat * rid) :=
   | [] => []
   end.
 
-(** references read through attributes by frame [i] are attributed to [i]
-    when it is cached, otherwise to the nearest cached caller (the frames
-    below); with no cached caller they are dropped *)
+(** pending attribute reads of an uncached frame are handed over to the
+    calling frame (their depth is lowered by one, order kept) *)
+Fixpoint move_refs (depth : nat) (rs : list (nat * rid)) : list (nat * rid) :=
+  match rs with
+  | (d, r) :: rest => if Nat.eqb d depth then (depth - 1, r) :: move_refs depth rest else rs
+  | [] => []
+  end.
+
+(** references read through attributes by frame [i] become reference-graph
+    edges to [i] when it is cached; an uncached frame hands them to its
+    caller; with no caller they are dropped *)
 Definition pop_frame (st : state) : state :=
   match s_stack st with
   | [] => st
@@ -296,11 +307,13 @@ Definition pop_frame (st : state) : state :=
         | None => if cached then g_add_node st1 (node_of i) else st1
         end in
       let depth := List.length rest in
-      let target := if cached then Some i else nearest_cached st1 rest in
-      match target with
-      | Some t => let (st3, rs) := pop_refs st2 depth t (s_refstack st2) in upd_refstack st3 rs
-      | None => upd_refstack st2 (drop_refs depth (s_refstack st2))
-      end
+      if cached then
+        let (st3, rs) := pop_refs st2 depth i (s_refstack st2) in upd_refstack st3 rs
+      else
+        match rest with
+        | [] => upd_refstack st2 (drop_refs depth (s_refstack st2))
+        | _ :: _ => upd_refstack st2 (move_refs depth (s_refstack st2))
+        end
   end.
 
 Definition rollback_frame (st : state) (line : nat) : state :=
@@ -563,15 +576,16 @@ Definition cells_in_space (st : state) (sp : option nat) : list cid :=
                             | Some s => Nat.eqb (cl_space (snd p)) s
                             end) (s_cells st)).
 
-(** [change_ref]: the containers notify every cells whose namespace shows the
-    reference, then the readers through attributes are cleared *)
+(** [change_ref]: [RefDict.del_item] first clears the readers through
+    attributes, then the containers notify every cells whose namespace shows
+    the reference *)
 Definition set_ref_value (st : state) (r : rid) (v : val) : out * state :=
   match lookup_ref (s_refs st) r with
   | None => (ORejected, st)
   | Some (sp, _) =>
       let st1 := upd_refs st (set_ref (s_refs st) r (sp, v)) in
-      let st2 := fold_left on_namespace_change (cells_in_space st1 sp) st1 in
-      (OOk, clear_attr_referrers st2 r)
+      let st2 := clear_attr_referrers st1 r in
+      (OOk, fold_left on_namespace_change (cells_in_space st2 sp) st2)
   end.
 
 (** [set_cells_formula] / [set_cache] on a cells without sub spaces *)
